@@ -32,6 +32,7 @@ SOURCE_FUNCS = [
     (_DS + "grid.py", "Grid._connect_single_cell_2d"), (_DS + "grid.py", "Grid._connect_single_cell_nd"),
     (_DS + "grid.py", "HexGrid._connect_cells_2d"), (_DS + "cell_agent.py", "CellAgent"),
     (_PL, "PropertyLayer.aggregate"), (_PL, "PropertyLayer.select_cells"),
+    (_PL, "HasPropertyLayers.__getattr__"), (_PL, "HasPropertyLayers.__setattr__"), (_PL, "HasPropertyLayers.__init__"),
     (_SP, "PropertyLayer"), (_SP, "_PropertyGrid"), (_SP, "ufunc_requires_additional_input"),
     (_SP, "is_single_argument_function"), (_SP, "_Grid.move_agent"), (_SP, "_Grid.is_cell_empty"),
     (_SP, "SingleGrid.place_agent"), (_SP, "SingleGrid.move_agent"), (_SP, "SingleGrid.remove_agent"),
@@ -50,6 +51,14 @@ RULE = ("histories = one grid of at most 12 cells (discrete: OrthogonalMoore / O
         "only_empty x extreme values (ties on purpose; explicit empty dict / list arguments; asked twice; arguments checked for "
         "mutation) in list and mask form, PropertyLayer.select_cells, aggregate (sum / max / min / mean), get_neighborhood_mask "
         "(radius up to 9, empty neighbourhoods, asked twice with the first result modified), 144 dtype probes per run, a sibling "
+        "grid; EVERY public way to a layer used interchangeably in one history (the handle, the attribute grid.<name>, the registry "
+        "dict / legacy grid.properties[name], cell.<name>, set_property / modify_properties vs the layer's own set_cells / "
+        "modify_cells), across remove + re-creation under the same name with another dtype / default, with grid.<name> required to "
+        "be the attached layer and to raise AttributeError once it is removed; user subclasses of Grid (docstring-only; extra "
+        "constructor argument + class-level default), PropertyLayer (same) and Cell (class-level default and property, whose names "
+        "add_property_layer must reject); user conditions that call back into the API (reads) while the library evaluates them "
+        "(run as ordinary set / modify operations through the model) and user callables raising ZeroDivisionError / StopIteration / "
+        "IndexError / KeyError / AttributeError / TypeError / ValueError part-way (oracle only, the model skips them); a second "
         "grid of the same class alive in the same process; plus two structured families every run (all agent rejections and all "
         "directions on small grids; int64 values beyond 2^53; int64 values WITHIN one float64 spacing of each other around +-2^53, "
         "2^62, 2^63-1, -2^63 and nanosecond timestamps, selected by highest / lowest / conditions / masks / only_empty - model-checked, Z is "
@@ -107,7 +116,8 @@ E_VALUE, E_KEY, E_INDEX, E_ATTR, E_TYPE, E_EXC = 1, 2, 3, 4, 5, 6
 DT_BOOL, DT_INT, DT_FLOAT = 0, 1, 2
 NAMES = {0: "empty", 1: "p1", 2: "p2", 3: "p3", 4: "p4", 5: "p5", 6: "p6",
          100: "agents", 101: "is_empty", 102: "coordinate", 103: "capacity", 104: "add_agent",
-         105: "_mesa_properties", 106: "connections", 107: "is_full", 108: "remove_agent", 109: "neighborhood"}
+         105: "_mesa_properties", 106: "connections", 107: "is_full", 108: "remove_agent", 109: "neighborhood",
+         110: "terrain", 111: "moisture"}          # attributes of the USER cell class (cases with usercls >= 2 only)
 CODES = {v: k for k, v in NAMES.items()}
 CMPS = ["gt", "ge", "lt", "le", "eq", "ne"]
 DISCRETE_CLS = ["OrthogonalMooreGrid", "OrthogonalVonNeumannGrid", "HexGrid"]
@@ -121,6 +131,7 @@ class _G:
         self.rng, self.impl, self.cls, self.dims = rng, impl, cls, list(dims)
         self.cap = cap
         self.torus = False
+        self.usercls = 0
         self.multi = "Multi" in cls
         self.handles = []          # (name, dt, dims)
         self.grid = {}             # name -> handle
@@ -339,7 +350,22 @@ class _G:
         elif k < 0.45 and user:
             n = r.choice(user)
             self.ops.append(["remove", n])
+            old = self.handles[self.grid[n]]
             del self.grid[n]
+            if r.random() < 0.5:
+                # a NEW layer under the same name (other dtype / default), then used through every entry point
+                dt = r.choice([d for d in (DT_BOOL, DT_INT, DT_FLOAT) if d != old[1]] + [old[1]])
+                v = self.val(dt)
+                if self.impl == "discrete" and r.random() < 0.6:
+                    self.ops.append(["create", n, dt, v])
+                    self.handles.append((n, dt, list(self.dims)))
+                else:
+                    self.ops.append(["new", n, dt, list(self.dims), v])
+                    self.handles.append((n, dt, list(self.dims)))
+                    self.ops.append(["add", len(self.handles) - 1])
+                self.grid[n] = len(self.handles) - 1
+                for _ in range(r.randint(1, 3)):
+                    r.choice([self.op_write, self.op_set, self.op_modify])()
         elif k < 0.6:
             # re-attach a detached handle (or try an attached one again: rejected)
             hs = [i for i, x in enumerate(self.handles) if x[0] != 0]
@@ -376,7 +402,7 @@ class _G:
                 self.ops.append(["add", len(self.handles) - 1])
         elif self.impl == "discrete":
             # a name every cell already has
-            n = r.choice([100, 101, 102, 103, 104, 105, 106, 107, 108, 109])
+            n = r.choice([100, 101, 102, 103, 104, 105, 106, 107, 108, 109] + ([110, 111, 110] if self.usercls >= 2 else []))
             dt = r.choice([DT_INT, DT_BOOL])
             if r.random() < 0.5:
                 self.ops.append(["create", n, dt, self.val(dt)])
@@ -443,6 +469,7 @@ def _random_case(rng, impl=None, n_ops=None):
     cap = rng.choice([0, 0, 0, 1, 1, 2]) if impl == "discrete" else 0
     g = _G(rng, impl, cls, dims, cap)
     g.torus = impl == "discrete" and rng.random() < 0.35
+    g.usercls = rng.choice([0, 0, 1, 2, 2])
     for _ in range(rng.choice([1, 2, 2, 3])):
         g.add_new_layer(attach=True)
     n_ops = n_ops or rng.randint(6, 20)
@@ -451,7 +478,7 @@ def _random_case(rng, impl=None, n_ops=None):
     while len(g.ops) < n_ops:
         rng.choice(menu)()
     return {"impl": impl, "cls": cls, "dims": list(dims), "cap": cap, "capform": rng.choice(["int", "int", "float", "zero"]),
-            "torus": g.torus, "ops": g.ops}
+            "torus": g.torus, "usercls": g.usercls, "ops": g.ops}
 
 
 def _bigint_cases():
@@ -1042,14 +1069,58 @@ class _Run:
                 cap = case.get("cap") or 0
                 capform = case.get("capform", "int")
                 capacity = (0 if capform == "zero" else None) if not cap else (float(cap) if capform == "float" else cap)
-                self.grid = getattr(ds, case["cls"])(self.dims, torus=bool(case.get("torus")), capacity=capacity,
-                                                     random=random.Random(1))
+                uc = case.get("usercls", 0)
+                base = getattr(ds, case["cls"])
+                if uc == 1:
+                    class UserGrid(base):
+                        """a docstring-only subclass"""
+                    gcls, gkw = UserGrid, {}
+                elif uc >= 2:
+                    class UserGrid(base):
+                        palette = "terrain"                  # class-level default
+
+                        def __init__(self, *a, label="x", **kw):   # extra constructor argument
+                            super().__init__(*a, **kw)
+                            self.label = label
+                    gcls, gkw = UserGrid, {"label": "y"}
+                else:
+                    gcls, gkw = base, {}
+                if uc >= 2:
+                    class UserCell(ds.Cell):
+                        """user cell class with a class-level default and a property (names the clash test must see)"""
+                        terrain = 3
+
+                        @property
+                        def moisture(self):
+                            return 1
+                    gkw["cell_klass"] = UserCell
+
+                    class UserLayer(PropertyLayer):
+                        unit = "m"
+
+                        def __init__(self, name, dimensions, default_value=0.0, dtype=float, note=None):
+                            super().__init__(name, dimensions, default_value=default_value, dtype=dtype)
+                            self.note = note
+                    self.PL = UserLayer
+                elif uc == 1:
+                    class UserLayer(PropertyLayer):
+                        """docstring-only subclass"""
+                    self.PL = UserLayer
+                self.grid = gcls(self.dims, torus=bool(case.get("torus")), capacity=capacity, random=random.Random(1), **gkw)
                 self.handles = [self.grid._mesa_property_layers["empty"]]
             else:
                 import mesa.space as msp
 
                 self.PL = msp.PropertyLayer
-                self.grid = getattr(msp, case["cls"])(self.dims[0], self.dims[1], False)
+                lbase = getattr(msp, case["cls"])
+                if case.get("usercls", 0):
+                    class UserLegacyGrid(lbase):
+                        """docstring-only subclass"""
+
+                    class UserLegacyLayer(msp.PropertyLayer):
+                        unit = "m"
+                    lbase, self.PL = UserLegacyGrid, UserLegacyLayer
+                self.grid = lbase(self.dims[0], self.dims[1], False)
                 self.handles = []
         # prior history in the same process: a sibling grid of the same class with layers of the same names must neither
         # influence this grid nor be influenced by it (dynamic cell classes, descriptors, class-level sets)
@@ -1133,10 +1204,18 @@ class _Run:
             out += [int(bool(self.grid.empty_mask[c])) for c in self.coords]
         return out
 
-    def resolve(self, ref):
+    def resolve(self, ref, salt=0):
+        """the layer object behind a reference; a name is resolved through every public way, interchangeably: the
+        attribute grid.<name>, the registry dict, (legacy) grid.properties[name]"""
         if ref[0] == "h":
             return self.handles[ref[1]] if 0 <= ref[1] < len(self.handles) else None
-        return self.gdict().get(NAMES[ref[1]])
+        name = NAMES[ref[1]]
+        if self.discrete and salt % 2 == 0:
+            try:
+                return getattr(self.grid, name)
+            except AttributeError:
+                return None
+        return self.gdict().get(name)
 
     def fail(self, key, i, what, c18=None):
         self.failures.append({"key": f"C11/{self.impl}/{key}", "op": i, "what": what})
@@ -1176,6 +1255,20 @@ class _Run:
             if not (names == descr == props):
                 self.fail("one-value/tables-disagree", i,
                           f"after {op}: grid layers {sorted(names)}, cell descriptors {sorted(descr)}, _mesa_properties {sorted(props)}")
+            # grid.<name> is the attached layer of that name - and nothing once the layer is removed
+            for code, nm in NAMES.items():
+                if code >= 100:
+                    continue
+                cur = self.gdict().get(nm)
+                try:
+                    via = getattr(self.grid, nm)
+                except AttributeError:
+                    via = None
+                if via is not cur:
+                    self.fail("one-value/grid-attribute-stale", i,
+                              f"after {op}: grid.{nm} is " + ("a layer that is no longer attached (handle %d)" % self.hindex(via) if via is not None else "missing")
+                              + ", the attached layer of that name is " + ("handle %d" % self.hindex(cur) if cur is not None else "none (AttributeError expected)"))
+                    break
             # (3) the two views
             for n, Lr in self.gdict().items():
                 for c in self.coords:
@@ -1261,6 +1354,20 @@ def _only_empty_is_culprit(R, kw, exp):
     except Exception:  # noqa: BLE001
         return False
     return got == exp
+
+
+def _reentrant(R, f):
+    """a user condition that, while the library is evaluating it cell by cell, calls back into the public API (reads only:
+    a selection, a cell attribute, the layer table) before answering"""
+    def g(x):
+        R.grid.select_cells(only_empty=True)
+        for n, Lr in list(R.gdict().items())[:2]:
+            Lr.data[tuple(0 for _ in Lr.data.shape)]
+            if R.discrete:
+                getattr(R.grid._cells[R.coords[0]], n)
+                getattr(R.grid, n)
+        return f(x)
+    return g
 
 
 _AGENT_CLASSES = {}
@@ -1548,7 +1655,7 @@ def run_impl(case):
                         R.sh[hi][c] = v
                     result = ("ok", [])
             elif kind in ("lwrite", "set", "setarr", "modcells", "modcell"):
-                Lr = R.resolve(op[1])
+                Lr = R.resolve(op[1], _salt(op))
                 if Lr is None or (kind == "modcell" and discrete):
                     result = ("skip",)
                 else:
@@ -1571,7 +1678,9 @@ def run_impl(case):
                     elif kind == "set":
                         _, _, v, cd = op
                         cf = _mk_cond(dt, cd) if cd else None
-                        if discrete and byname:
+                        if cf is not None and _salt(op) % 5 == 0:
+                            cf = _reentrant(R, cf)
+                        if discrete and byname and _salt(op) % 3:
                             R.grid.set_property(Lr.name, _as(dt, v, _salt(op)), cf)
                         else:
                             Lr.set_cells(_as(dt, v, _salt(op)), cf)
@@ -1608,7 +1717,7 @@ def run_impl(case):
                         if form == "ubin" and not hasval:
                             expect_err = E_VALUE
                         value = (k if k is not None else 1) if hasval else None
-                        if discrete and byname:
+                        if discrete and byname and _salt(op) % 3:
                             R.grid.modify_properties(Lr.name, fn, value, cf)
                         else:
                             Lr.modify_cells(fn, value, cf)
@@ -1778,10 +1887,12 @@ def run_impl(case):
                     hi = R.hindex(Lr)
                     calls = []
 
+                    exc = [ZeroDivisionError, StopIteration, IndexError, KeyError, AttributeError, TypeError, ValueError][_salt(op) % 7]
+
                     def bad(x, calls=calls):
                         calls.append(1)
                         if len(calls) >= 2:
-                            raise ZeroDivisionError("user code failed")
+                            raise exc("user code failed")
                         return x
 
                     try:
@@ -1790,9 +1901,10 @@ def run_impl(case):
                         elif bulk or discrete:
                             Lr.modify_cells(bad)
                         else:
-                            Lr.modify_cell(tuple(R.coords[0]), lambda x: 1 // 0)
+                            calls.append(1)
+                            Lr.modify_cell(tuple(R.coords[0]), lambda x: bad(x))
                         raised = False
-                    except ZeroDivisionError:
+                    except exc:
                         raised = True
                     if not raised:
                         R.fail("user-exception/swallowed", i, f"{op}: the exception raised by the user's callable did not propagate")
